@@ -20,9 +20,15 @@ fn main() {
             "--out" => { i += 1; out = PathBuf::from(&args[i]); },
             "--replay" => { i += 1; replay = Some(args[i].clone()); },
             "--resolve" => { resolve = true; },
-            s => id = s.to_string(),
+            s => if id.is_empty() { id = s.to_string() },
         }
         i += 1;
+    }
+    if id == "JSON" {
+        // debugging aid: corr JSON <c|u> <hex frame> prints the serde image of the decoded packet
+        let a: Vec<&String> = args.iter().skip(2).collect();
+        if let corr::pkt::Dec::Pkt(p, _) = corr::pkt::real_decode(a[0] == "c", &unhex(a[1])) { println!("{}", serde_json::to_string(&p).unwrap()); } else { println!("no packet"); }
+        return;
     }
     if resolve {
         // second pass: evaluate the external calls the model left in its output (codec runs for C10)
@@ -46,6 +52,7 @@ fn main() {
         "C15" => corr::c15::run(&mut ctx),
         "C16" => corr::c16::run(&mut ctx),
         "C17" => corr::c17::run(&mut ctx),
+        "C02" => corr::c02::run(&mut ctx),
         "C18" => corr::c18::run(&mut ctx),
         "C19" => corr::c19::run(&mut ctx),
         "C20" => corr::c20::run(&mut ctx),
